@@ -7,13 +7,13 @@ package scen
 
 import (
 	"fmt"
-	"sort"
 	"strings"
 	"time"
 
 	"github.com/anthdm/hollywood/actor"
 	"github.com/anthdm/hollywood/remote"
 	"github.com/anthdm/hollywood/zzverif/vnet"
+	"verifharness/rparams"
 	"github.com/anthdm/hollywood/zzverif/vsched"
 )
 
@@ -52,20 +52,7 @@ func newRemNode(addr string, quiet bool) *remNode {
 	return &remNode{k: k, r: r}
 }
 
-type remParams struct {
-	Senders    int
-	PerT       int
-	Targets    int  // 1 or 2 actors on B
-	WithSender bool // odd messages carry a sender PID
-	FailDials  int  // dial attempts to B that fail before the peer is reachable (3 = one whole connection attempt)
-	Late       int  // sends issued after the first episode has settled
-	Request    bool // a requester on A asks an echo actor on B
-	Actor      bool // one sender is an actor on A (two c.Send from one Receive)
-}
-
-func (p remParams) String() string {
-	return fmt.Sprintf("T%dx%dtg%dsnd%vfail%dlate%dreq%vact%v", p.Senders, p.PerT, p.Targets, p.WithSender, p.FailDials, p.Late, p.Request, p.Actor)
-}
+type remParams = rparams.Params
 
 type remSend struct {
 	id     string
@@ -292,60 +279,53 @@ func engRemote(variants []remParams) vsched.Instance {
 		if b == nil {
 			return ""
 		}
-		var parts []string
+		var ds []rparams.Delivery
 		for _, e := range b.k.Log {
-			if m, ok := e.Raw.(*remote.TestMessage); ok && e.Kind == "recv" {
-				parts = append(parts, e.Actor+"<"+string(m.Data))
+			if m, ok := e.Raw.(*remote.TestMessage); ok && e.Kind == "recv" && !strings.HasPrefix(string(m.Data), "req") {
+				ds = append(ds, rparams.Delivery{Actor: e.Actor, ID: string(m.Data), Sender: e.Sender})
 			}
 		}
-		var ev []string
+		var dead []string
+		unreachable := 0
 		if a != nil {
 			for _, e := range a.k.Log {
 				if e.Kind == "event" {
 					switch x := e.Raw.(type) {
 					case actor.RemoteUnreachableEvent:
-						ev = append(ev, "unreachable")
+						unreachable++
 					case actor.DeadLetterEvent:
 						if _, _, msg, ok := remote.VerifUnwrapDeliver(x.Message); ok {
 							if m, ok := msg.(*remote.TestMessage); ok {
-								ev = append(ev, "dead:"+string(m.Data))
+								dead = append(dead, string(m.Data))
 							}
 						}
 					}
 				}
 			}
 		}
-		sort.Strings(ev)
-		return p.String() + ": " + strings.Join(parts, " ") + " | " + strings.Join(ev, " ")
+		req := ""
+		if p.Request {
+			if m, ok := reqGot.(*remote.TestMessage); ok && reqErr == nil {
+				req = string(m.Data)
+			} else {
+				req = "error"
+			}
+		}
+		return rparams.Record(p, ds, dead, unreachable, req)
 	}
 	return vsched.Instance{Body: body, Check: check, Outcome: outcome}
 }
 
-func down(p remParams) bool { return p.FailDials >= 3 }
+func down(p remParams) bool { return p.Down() }
 
 func init() {
-	up := []remParams{
-		{Senders: 1, PerT: 3, Targets: 2, WithSender: true},
-		{Senders: 2, PerT: 2, Targets: 1, WithSender: true},
-		{Senders: 2, PerT: 2, Targets: 2},
-		{Senders: 1, PerT: 2, Targets: 1, FailDials: 1},
-		{Senders: 1, PerT: 2, Targets: 1, FailDials: 2, WithSender: true},
-		{Senders: 1, PerT: 1, Targets: 1, Request: true},
-		{Senders: 1, PerT: 1, Targets: 1, Actor: true},
-	}
-	dn := []remParams{
-		{Senders: 1, PerT: 2, Targets: 1, FailDials: 3, Late: 1},
-		{Senders: 2, PerT: 1, Targets: 2, FailDials: 3, Late: 1, WithSender: true},
-		{Senders: 1, PerT: 1, Targets: 1, FailDials: 6, Late: 2},
-		{Senders: 1, PerT: 2, Targets: 1, FailDials: 3, Late: 2},
-	}
-	upT := append([]remParams{{Senders: 3, PerT: 1, Targets: 2, WithSender: true}, {Senders: 2, PerT: 3, Targets: 2, WithSender: true}, {Senders: 2, PerT: 1, Targets: 1, Request: true, Actor: true}}, up...)
-	Register(&Job{Name: "C17/remote/peer-up", Prop: "C17", Bound: 1, BoundT: 2, Budget: 50, BudgetT: 900, Shards: 7,
+	up, dn, upT := rparams.Up, rparams.Dn, rparams.UpLarge
+	Register(&Job{Name: "C17/remote/peer-up", Prop: "C17", Bound: 1, BoundT: 2, Budget: 35, BudgetT: 900, Shards: 7, DumpOutcomes: true,
 		Desc: "two real engines with real Remote/router/writer/reader over the in-memory transport: 1-2 sender threads x 1-3 messages to 1-2 actors on the peer (with/without sender PID), an actor sender, a request/response pair, 0-2 failing dial attempts inside the writer's retry loop: exactly-once, right target and sender, per-sender order, reply reaches the requester, no unreachable event",
 		Make: func() vsched.Instance { return engRemote(up) }})
-	Register(&Job{Name: "C17/remote/peer-down", Prop: "C17", Bound: 1, BoundT: 2, Budget: 50, BudgetT: 900, Shards: 4,
+	Register(&Job{Name: "C17/remote/peer-down", Prop: "C17", Bound: 1, BoundT: 2, Budget: 35, BudgetT: 900, Shards: 4, DumpOutcomes: true,
 		Desc: "the peer refuses all 3 dial attempts of the first (and second) connection attempt: RemoteUnreachableEvent once per failed attempt, every message handed to that attempt dead-lettered exactly once (conservation: delivered xor dead-lettered), a send after the episode settled triggers a fresh dial and arrives once the peer is up",
 		Make: func() vsched.Instance { return engRemote(dn) }})
-	Register(&Job{Name: "C17/remote/peer-up-large", Prop: "C17", Tier: "thorough", Bound: 1, BoundT: 2, Budget: 50, BudgetT: 900, Shards: 10,
+	Register(&Job{Name: "C17/remote/peer-up-large", Prop: "C17", Tier: "thorough", Bound: 1, BoundT: 2, Budget: 50, BudgetT: 900, Shards: 10, DumpOutcomes: true,
 		Desc: "as peer-up with 3 senders / 3 messages per sender / request + actor sender", Make: func() vsched.Instance { return engRemote(upT) }})
 }
